@@ -18,6 +18,7 @@ inductive SpecId where
   | strlen | strcmp | strncmp | strchr | memchr | memcmp | memcpy | memmove
   | floor | ceil | trunc | round | rint | lrint | copysign | signbit | isnan | isinf | fma
   | fmod | remainder   -- exactly specified (C17 7.12.10), specification: Tetl.C16.Fmt.fmod / remainder (property C16)
+  | sqrt        -- exactly specified (IEC 60559 5.4.1: correctly rounded), specification: Tetl.C13.FSpec.sqrt
   | approx      -- approximating function: no exactly specified result (outside the statement of C13; C16 tolerant part)
   | infra       -- language plumbing, not a value-returning library operation
   deriving Repr, DecidableEq
@@ -34,7 +35,9 @@ def fnTable : List (String × SpecId) := [
   ("floor", .floor), ("ceil", .ceil), ("trunc", .trunc), ("round", .round), ("rint_impl", .rint), ("lrint_impl", .lrint),
   ("llrint_impl", .lrint), ("copysign", .copysign), ("signbit", .signbit), ("isnan", .isnan), ("isinf", .isinf),
   ("fma", .fma), ("fmod", .fmod), ("remainder", .remainder),
-  ("sqrt", .approx),      -- correctly rounded at run time (builtin); gcem's Newton iteration in constant evaluation: C16 tolerant part
+  ("sqrt", .sqrt),        -- correctly rounded: an exact function (the sqrt builtin on both paths under GCC since 55139da)
+  ("sinh", .approx), ("cosh", .approx), ("tgamma", .approx), ("lgamma", .approx), ("erf", .approx), ("log1p", .approx),
+  ("atanh", .approx), ("atan2", .approx),      -- libm builtin at run time since the C16 review fixes, gcem in constant evaluation
   ("acos", .approx), ("acosh", .approx), ("asin", .approx), ("asinh", .approx), ("atan", .approx), ("cos", .approx),
   ("exp", .approx), ("log", .approx), ("log10", .approx), ("log2", .approx), ("pow", .approx), ("sin", .approx),
   ("tan", .approx), ("tanh", .approx),
@@ -60,7 +63,15 @@ def builtinTable : List (String × SpecId) := [
   ("__builtin_fmaf", .fma), ("__builtin_fma", .fma),
   ("__builtin_fmodf", .fmod), ("__builtin_fmod", .fmod), ("__builtin_fmodl", .fmod),
   ("__builtin_remainderf", .remainder), ("__builtin_remainder", .remainder), ("__builtin_remainderl", .remainder),
-  ("__builtin_sqrtf", .approx), ("__builtin_sqrt", .approx), ("__builtin_sqrtl", .approx),
+  ("__builtin_sqrtf", .sqrt), ("__builtin_sqrt", .sqrt), ("__builtin_sqrtl", .sqrt),
+  ("__builtin_sinhf", .approx), ("__builtin_sinh", .approx), ("__builtin_sinhl", .approx),
+  ("__builtin_coshf", .approx), ("__builtin_cosh", .approx), ("__builtin_coshl", .approx),
+  ("__builtin_tgammaf", .approx), ("__builtin_tgamma", .approx), ("__builtin_tgammal", .approx),
+  ("__builtin_lgammaf", .approx), ("__builtin_lgamma", .approx), ("__builtin_lgammal", .approx),
+  ("__builtin_erff", .approx), ("__builtin_erf", .approx), ("__builtin_erfl", .approx),
+  ("__builtin_log1pf", .approx), ("__builtin_log1p", .approx), ("__builtin_log1pl", .approx),
+  ("__builtin_atanhf", .approx), ("__builtin_atanh", .approx), ("__builtin_atanhl", .approx),
+  ("__builtin_atan2f", .approx), ("__builtin_atan2", .approx), ("__builtin_atan2l", .approx),
   ("__builtin_acosf", .approx), ("__builtin_acos", .approx), ("__builtin_acoshf", .approx), ("__builtin_acosh", .approx),
   ("__builtin_asinf", .approx), ("__builtin_asin", .approx), ("__builtin_asinhf", .approx), ("__builtin_asinh", .approx),
   ("__builtin_atanf", .approx), ("__builtin_atan", .approx), ("__builtin_cosf", .approx), ("__builtin_cos", .approx),
@@ -70,7 +81,8 @@ def builtinTable : List (String × SpecId) := [
   ("__builtin_tanf", .approx), ("__builtin_tan", .approx), ("__builtin_tanhf", .approx), ("__builtin_tanh", .approx)]
 
 /-- tetl's own code on the other path ↦ (specification, how it is tied to it).  The `proved` ones name the theorem
-    in `Tetl.C13.Props` (see `proofOf`). -/
+    in `Tetl.C13.Props` (see `proofOf`).  A key `fn|callee` binds a callee of that function only (the `return`
+    expressions of the special-value ladders are the same text in several functions). -/
 def calleeTable : List (String × SpecId × Status) := [
   ("popcount_fallback", .popcount, .proved), ("byteswap_fallback", .bswap, .proved),
   ("add_sat_fallback", .addSat, .proved),
@@ -88,13 +100,23 @@ def calleeTable : List (String × SpecId × Status) := [
   ("signbit_fallback", .signbit, .proved),               -- reads the sign bit of the representation (since b1ff629)
   ("inline:arg != arg", .isnan, .proved),
   ("inline:arg == etl::numeric_limits<Float>::infinity()", .isinf, .divergent),   -- misses -inf; unreachable where __builtin_isinf exists
-  ("inline:x * y + z", .fma, .divergent),                -- two roundings; known finding F-c13-fma-constexpr-double-rounding
-  -- gcem::fmod = x - trunc(x / y) * y in floating point: inexact as soon as x/y is rounded, NaN for an infinite y.
-  -- Known finding F-C16-gcem-fmod-constexpr of property C16 (which evaluates both paths: ops cb/fmod, cb/remainder).
+  -- two roundings.  Since 2d96e3e constant evaluation takes the builtin wherever GCC folds it (`ct = folded`); x * y + z
+  -- serves the remaining arguments: known finding F-c13-fma-constexpr-unfolded (fma_paths_partial / _counterexample)
+  ("inline:x * y + z", .fma, .divergent),
+  -- gcem::fmod = x - trunc(x / y) * y in floating point: inexact as soon as x/y is rounded.  Since 67c4687 / f0dd916 it is
+  -- NOT reached under GCC (`ct = builtin`: special-value ladder, then the builtin on both paths); other compilers only.
   ("gcem::fmod", .fmod, .divergent),
-  -- the two returns of the constant-evaluated IEEE remainder, derived from gcem::fmod (same finding)
+  -- the two returns of the IEEE remainder derived from gcem::fmod (same: other compilers only)
   ("inline:r", .remainder, .divergent), ("inline:r < T(0) ? r + ay : r - ay", .remainder, .divergent),
-  ("gcem::sqrt", .approx, .corr),
+  -- Newton iteration, 1 ulp off and 0 for tiny arguments: not reached under GCC since 55139da (`ct = builtin`)
+  ("gcem::sqrt", .sqrt, .divergent),
+  -- special-value ladders in front of the builtins (constant evaluation; the compiler folds the builtin for the rest)
+  ("sqrt|inline:arg", .sqrt, .proved), ("sqrt|inline:numeric_limits<T>::quiet_NaN()", .sqrt, .proved),
+  ("fmod|inline:numeric_limits<T>::quiet_NaN()", .fmod, .corr), ("fmod|inline:x", .fmod, .corr),           -- proved by C16: fmodCt_eq
+  ("remainder|inline:numeric_limits<T>::quiet_NaN()", .remainder, .corr), ("remainder|inline:x", .remainder, .corr),
+  ("gcem::sinh", .approx, .corr), ("gcem::cosh", .approx, .corr), ("gcem::tgamma", .approx, .corr),
+  ("gcem::lgamma", .approx, .corr), ("gcem::erf", .approx, .corr), ("gcem::log1p", .approx, .corr),
+  ("gcem::atanh", .approx, .corr), ("gcem::atan2", .approx, .corr),
   ("gcem::acos", .approx, .corr), ("gcem::acosh", .approx, .corr), ("gcem::asin", .approx, .corr),
   ("gcem::asinh", .approx, .corr), ("gcem::atan", .approx, .corr), ("gcem::cos", .approx, .corr),
   ("gcem::exp", .approx, .corr), ("gcem::log", .approx, .corr), ("gcem::log2", .approx, .corr),
@@ -111,13 +133,19 @@ def proofOf : List (String × String) := [
   ("memchr", "memchr_paths"), ("memcmp", "memcmp_paths"), ("memcpy", "memcpy_paths"), ("memmove", "memmove_paths"),
   ("gcem::floor", "floor_paths"), ("gcem::ceil", "ceil_paths"), ("gcem::trunc", "trunc_paths"),
   ("gcem::round", "round_paths"),
-  ("copysign_fallback", "copysign_paths"), ("signbit_fallback", "signbit_paths"), ("inline:arg != arg", "isnan_paths")]
+  ("copysign_fallback", "copysign_paths"), ("signbit_fallback", "signbit_paths"), ("inline:arg != arg", "isnan_paths"),
+  ("sqrt|inline:arg", "sqrt_paths"), ("sqrt|inline:numeric_limits<T>::quiet_NaN()", "sqrt_paths")]
 
 def lookup {α : Type} (t : List (String × α)) (k : String) : Option α := (t.find? (·.1 == k)).map (·.2)
 
 def fnSpec (fn : String) : Option SpecId := lookup fnTable fn
 def builtinSpec (b : String) : Option SpecId := lookup builtinTable b
 def calleeSpec (c : String) : Option (SpecId × Status) := lookup calleeTable c
+/-- the binding of callee `c` of function `fn`: the function-specific key first -/
+def calleeSpecOf (fn c : String) : Option (SpecId × Status) :=
+  match lookup calleeTable (fn ++ "|" ++ c) with
+  | some r => some r
+  | none => calleeSpec c
 
 /-- An entry is consistent when its function has a specification, every builtin it calls is assumed to implement
     that same specification, and every callee is tied to that same specification. -/
@@ -126,13 +154,18 @@ def entryOk (e : Entry) : Bool :=
   | none => false
   | some s =>
     e.builtins.all (fun b => builtinSpec b.2 == some s) &&
-    e.callees.all (fun c => match calleeSpec c with | some (s', _) => s' == s | none => false)
+    e.callees.all (fun c => match calleeSpecOf e.fn c with | some (s', _) => s' == s | none => false)
 
-/-- entries whose two paths are live in the *same* program (run-time builtin, constant-evaluated callee), have an
-    exactly specified result, and whose callee is known to differ from the specification -/
+/-- entries whose two paths are live in the *same* program (run-time builtin; in constant evaluation a callee, for
+    all arguments `ct = callee` or for those the compiler does not fold `ct = folded`), have an exactly specified
+    result, and whose callee is known to differ from the specification.  Entries with `ct = builtin` run the same
+    builtin on both paths under GCC: their divergent callee is compiled for other compilers only. -/
 def divergentIce (t : List Entry) : List String :=
-  (t.filter (fun e => e.mech == .ice && fnSpec e.fn != some .approx && fnSpec e.fn != some .infra &&
-      e.callees.any (fun c => match calleeSpec c with | some (_, .divergent) => true | _ => false))).map (·.fn)
+  (t.filter (fun e => e.mech == .ice && e.ct != .builtin && fnSpec e.fn != some .approx && fnSpec e.fn != some .infra &&
+      e.callees.any (fun c => match calleeSpecOf e.fn c with | some (_, .divergent) => true | _ => false))).map (·.fn)
+
+/-- entries whose constant evaluation runs the run-time builtin (after a ladder of special values) under GCC -/
+def ctBuiltin (t : List Entry) : List String := (t.filter (fun e => e.ct == .builtin)).map (·.fn)
 
 /-- every callee marked `proved` names a theorem -/
 def provedHaveProofs : Bool :=
